@@ -18,7 +18,9 @@ EPS = 1e-12
 
 class ScriptedPRNG:
     def __init__(self, script: Sequence[int] = (), vector_script: Optional[Callable] = None,
-                 random_script: Optional[Callable] = None):
+                 random_script: Optional[Callable] = None, branch_vectors: int = 0):
+        # branch_vectors=k: a vector draw choice(size<=k) is treated as k independent branching scalar draws
+        self.branch_vectors = branch_vectors
         self.script = list(script)
         self.pos = 0
         self.log: List[dict] = []  # one entry per *scalar* branching draw
@@ -47,6 +49,10 @@ class ScriptedPRNG:
             k = self._branch(probs)
             return k if isinstance(a, (int, np.integer)) else a[k]
         cnt = int(np.prod(size))
+        if self.branch_vectors and cnt <= self.branch_vectors:
+            idx = np.array([self._branch(probs) for _ in range(cnt)], dtype=np.int64)
+            out = idx if isinstance(a, (int, np.integer)) else np.asarray(a)[idx]
+            return out.reshape(size) if not isinstance(size, (int, np.integer)) else out
         if self.vector_script is not None:
             idx = np.asarray(self.vector_script(n, probs, cnt), dtype=np.int64)
         else:
